@@ -15,6 +15,9 @@ def modelled : List String := [
   "ffg.Element.Exp",
   "ffg.Element.Legendre",
   "ffg.Element.Sqrt",
+  "ff.<asm>@element_mul_adx_amd64.s",
+  "ff.<asm>@element_mul_amd64.s",
+  "ff.<asm>@element_ops_amd64.s",
   "ff.<decls>@arith.go",
   "ff.<decls>@asm.go",
   "ff.<decls>@asm_noadx.go",
@@ -36,6 +39,6 @@ theorem source_pinned : modelled.all (same I3.Gen.fingerprints) = true := by dec
 theorem function_set_pinned : (["ff.", "ffg."] : List String).all (sameKeys I3.Gen.fingerprints) = true := by
   decide +kernel
 
-theorem modelled_nonempty : 20 = modelled.length := by decide
+theorem modelled_nonempty : 23 = modelled.length := by decide
 
 end I3.Props.C18
